@@ -238,6 +238,67 @@ def collect(ctx: Ctx):
             vectors.append({"kind": "decresp", "payload": B(f), "ctr": 0, "p": B(ref), "o": v3_oracle(skey, ref), "res": res, "via": via})
             if l._protocol:
                 l._disconnect()
+        # responses whose ciphertext / tag happens to contain the start-marker bytes 83 70, split right behind that pair; a response whose second
+        # part arrives after the read timeout of the first transmission (the client retransmits meanwhile); two responses and an immediate close
+        for k in range(ctx.pick(10, 120)):
+            l = LAN("10.0.0.1", 6444, 80)
+            await l.authenticate(tok, key)
+            cid = net.conns[-1].cid
+            skey = dev.sess[cid]["key"]
+            f = rbytes(rng, rng.choice([5, 20, 34]))
+            mode = ["marker", "marker", "slow", "close"][k % 4]
+            pk = None
+            if mode == "marker":
+                for _ in range(4000):
+                    cand = landev.v3_enc_packet(skey, landev.v2_wrap(f, 80), rng.randrange(65536), 3, padbytes=rbytes(rng, 16))
+                    j = cand.find(b"\x83\x70", 8)
+                    if j > 0:
+                        pk, cut = cand, j + 2
+                        break
+                    f = rbytes(rng, len(f))
+                if pk is None:
+                    continue
+
+            def respond3(tr, packets, mode=mode, pk=pk, skey=skey, f=f):
+                if packets[0][5] & 0xF == 1:
+                    for q in packets:
+                        loop.call_soon(tr.feed, q)
+                    return
+                if plan3.get("done"):
+                    return                                  # (retransmissions are not answered again)
+                plan3["done"] = True
+                if mode == "marker":
+                    loop.call_at(loop.time() + 0.01, tr.feed, pk[:cut])
+                    loop.call_at(loop.time() + 0.30, tr.feed, pk[cut:])
+                elif mode == "slow":
+                    p1 = landev.v3_enc_packet(skey, landev.v2_wrap(f, 80), 7)
+                    loop.call_at(loop.time() + 0.01, tr.feed, p1[:20])
+                    loop.call_at(loop.time() + 2.5, tr.feed, p1[20:])
+                else:
+                    p1 = landev.v3_enc_packet(skey, landev.v2_wrap(f, 80), 7)
+                    p2 = landev.v3_enc_packet(skey, landev.v2_wrap(f[::-1], 80), 8)
+                    loop.call_at(loop.time() + 0.01, lambda: (tr.feed(p1 + p2), tr.peer_close()))
+            plan3 = {}
+            dev.respond = respond3
+            try:
+                r = await l.send(f, retries=3 if mode == "slow" else 1)
+                res = {"k": "frame", "f": B(r[0]) if r else []}
+                nret = len(r)
+            except Exception as e:  # noqa: BLE001 - code under test
+                res, nret = {"k": "raise", "exc": type(e).__name__}, 0
+            dev.respond = respond
+            ref = landev.v3_enc_packet(skey, f, 0)
+            vectors.append({"kind": "decresp", "payload": B(f), "ctr": 0, "p": B(ref), "o": v3_oracle(skey, ref), "res": res,
+                            "via": "LAN.send, " + {"marker": "response containing the marker bytes in its body, split right behind them", "slow": "second part of the response 2.5 s late (retransmission meanwhile)",
+                                                     "close": "two responses in one segment, then the peer closes"}[mode]})
+            if mode == "close":
+                ref2 = landev.v3_enc_packet(skey, f[::-1], 0)
+                vectors.append({"kind": "decresp", "payload": B(f[::-1]), "ctr": 0, "p": B(ref2), "o": v3_oracle(skey, ref2),
+                                "res": {"k": "frame", "f": B(r[1])} if nret > 1 else {"k": "raise", "exc": "nothing (second response not returned)"},
+                                "via": "LAN.send, second of two responses in one segment followed by the peer closing"})
+            await asyncio.sleep(6)
+            if l._protocol:
+                l._disconnect()
         # straddling the key lifetime
         for k in range(ctx.pick(4, 30)):
             l = LAN("10.0.0.1", 6444, 79)
